@@ -66,7 +66,8 @@ class ChildEnv:
     def install(self, flmod):
         env = self
         flmod.fcntl = _Proxy(real_fcntl, flock=env.flock)
-        flmod.time = types.SimpleNamespace(time=env.time, sleep=env.sleep)
+        import time as real_time
+        flmod.time = _Proxy(real_time, time=env.time, monotonic=env.time, perf_counter=env.time, sleep=env.sleep)
 
         def on_line(code, line):
             if env.active:
